@@ -230,10 +230,28 @@ def install():
             cls.get_partial_values = _wrap_get_partial(cls.get_partial_values)
     _installed = True
     path = os.environ.get("VERIF_TRACE_FILE")
-    if path:
+    if path and os.environ.get("VERIF_TRACE_PARENT") != str(os.getpid()):
         TRACE.sink = open(path, "a", buffering=1)
         TRACE.enabled = True
-        TRACE.digest = True
+        TRACE.digest = False
+        inj = os.environ.get("VERIF_INJECT")
+        if inj:
+            kind, seed = inj.split(":")
+            if kind == "delay":
+                TRACE.injector = make_delay_injector(int(seed))
+
+
+def make_delay_injector(seed, choices=(0.0, 0.0, 0.001, 0.005, 0.02)):
+    """Seeded write-visibility latency: the delay before a data-chunk `set` reaches the store is a
+    deterministic function of (seed, key). Applied at the store coroutine (a real suspension point)."""
+
+    def inj(phase, ev):
+        if ev["op"] not in ("set", "set_if_not_exists"):
+            return 0.0
+        h = hashlib.blake2b(f"{seed}:{ev['key']}".encode(), digest_size=2).digest()
+        return choices[h[0] % len(choices)]
+
+    return inj
 
 
 def read_sink(path):
